@@ -196,11 +196,32 @@ def _contains_return(node) -> bool:
 EXTRACTORS = {"ResultTable": extract_result_table}
 
 
+def _discover():
+    """extractors may also live in harness/extractors/<Name>.py (each defines `extract() -> dict`)"""
+    import importlib.util
+
+    d = Path(__file__).resolve().parent / "extractors"
+    found = dict(EXTRACTORS)
+    if d.is_dir():
+        for f in sorted(d.glob("*.py")):
+            if f.name.startswith("_"):
+                continue
+            spec = importlib.util.spec_from_file_location(f"extractors_{f.stem}", f)
+            mod = importlib.util.module_from_spec(spec)
+            spec.loader.exec_module(mod)
+            found[f.stem] = mod.extract
+    return found
+
+
 def run_extract(only: list[str] | None = None) -> dict:
+    """`only=None` runs every extractor; a check passes the names it depends on"""
     out = {}
-    for name, fn in EXTRACTORS.items():
-        if only is None or name in only:
-            out[name] = fn()
+    found = _discover() if only is None else None
+    for name in (found if only is None else only):
+        fn = (found or EXTRACTORS).get(name)
+        if fn is None:
+            fn = _discover()[name]
+        out[name] = fn()
     return out
 
 
